@@ -19,6 +19,7 @@ import (
 	"net/http"
 	"os"
 	"path/filepath"
+	"runtime"
 	"strings"
 	"sync"
 	"syscall"
@@ -118,10 +119,12 @@ func FreePorts(n int) []int {
 	portInit()
 	var ps []int
 	span := portHi - portLo
+	seen := map[int]bool{}
 	for tries := 0; len(ps) < n && tries < 3*span; tries++ {
 		p := portLo + portCursor%span
 		portCursor++
-		if portFree(p) {
+		if !seen[p] && portFree(p) {
+			seen[p] = true
 			ps = append(ps, p)
 		}
 	}
@@ -460,4 +463,37 @@ func RaiseNoFile() {
 		r.Cur = r.Max
 		syscall.Setrlimit(syscall.RLIMIT_NOFILE, &r)
 	}
+}
+
+// WaitSignalTraps blocks until the goroutines started by casket.TrapSignals
+// are parked on their signal channels, i.e. until signal.Notify has been
+// executed: a signal sent earlier would be silently lost (SIGUSR1) or kill
+// the process (SIGTERM/SIGINT default action), which is a harness artefact.
+func WaitSignalTraps() bool {
+	dl := time.Now().Add(30 * time.Second)
+	buf := make([]byte, 1<<20)
+	for time.Now().Before(dl) {
+		n := runtime.Stack(buf, true)
+		posix, cross := false, false
+		for _, g := range strings.Split(string(buf[:n]), "\n\n") {
+			head := g
+			if i := strings.Index(g, "\n"); i > 0 {
+				head = g[:i]
+			}
+			if !strings.Contains(head, "chan receive") {
+				continue
+			}
+			if strings.Contains(g, "casket.trapSignalsPosix.func1") {
+				posix = true
+			}
+			if strings.Contains(g, "casket.trapSignalsCrossPlatform.func1") {
+				cross = true
+			}
+		}
+		if posix && cross {
+			return true
+		}
+		time.Sleep(time.Millisecond)
+	}
+	return false
 }
